@@ -97,5 +97,21 @@ def subDivDefect : Exp α → Bool
   | .min es | .max es | .and es | .or es => (es.map fun e => subDivDefect e).any id
   | .xor a b | .implies a b | .iff a b => subDivDefect a || subDivDefect b
 
+/-- a logic node (`and`/`or`/`xor`/`implies`/`iff` — the dedicated `Exp` variants, not `BinOp`) -/
+def isLogicVariant : Exp α → Bool
+  | .and _ | .or _ | .xor _ _ | .implies _ _ | .iff _ _ => true
+  | _ => false
+
+/-- a logic node directly under `+ - * /`: `operand_to_string` falls back to plain `Display` for it, so it is
+rendered without parentheses (`(b and d) + x` prints `b and d + x`). -/
+def logicUnderArith : Exp α → Bool
+  | .bin o l r =>
+    ((o == .add || o == .sub || o == .mul || o == .div) && (isLogicVariant l || isLogicVariant r))
+      || logicUnderArith l || logicUnderArith r
+  | .num _ | .var _ => false
+  | .abs e | .not e | .un _ e => logicUnderArith e
+  | .min es | .max es | .and es | .or es => (es.map fun e => logicUnderArith e).any id
+  | .xor a b | .implies a b | .iff a b => logicUnderArith a || logicUnderArith b
+
 end
 end Rooc.Display
